@@ -339,8 +339,24 @@ func addProg(run *vlib.Run, p *Prog, labels ...string) {
 	nontrivial := ref.Kind == "err" || len(ref.G.cmds) >= 3 || len(ref.G.hs)+len(ref.G.vs) > 0 || ref.MaxDepth > 0
 	idx := run.Add(cl, impl, nontrivial, labels...)
 	if fail != "" {
-		run.Fail(idx, cl, fail, sig)
+		report(run, idx, cl, fail, sig)
 	}
+}
+
+// report records an oracle failure; the recorded list is capped by vlib, so
+// the classes that are known open findings are limited to a few witnesses
+// each and can never crowd out another failure.
+var reported = map[string]int{}
+
+func report(run *vlib.Run, idx int, cl, fail, sig string) {
+	if sig == sigCount || sig == sigClamp {
+		reported[sig]++
+		if reported[sig] > 25 {
+			run.Hist["known-finding-not-listed:"+sig]++
+			return
+		}
+	}
+	run.Fail(idx, cl, fail, sig)
 }
 
 // wellFormed generates one program the reference accepts (with retries).
